@@ -214,8 +214,8 @@ def icSum (a b : Option K) : Option K :=
 /-- the class of a leaf, for `arg1.__class__ != arg2.__class__` -/
 def Leaf.cls : Leaf K → String
   | .R _ => "R" | .G _ => "G" | .L _ _ => "L" | .C _ _ => "C" | .Y _ => "Y" | .Z _ => "Z"
-  | .V .gen _ => "V" | .V .dc _ => "Vdc" | .V .step _ => "Vstep" | .V .sdom _ => "sV"
-  | .I .gen _ => "I" | .I .dc _ => "Idc" | .I .step _ => "Istep" | .I .sdom _ => "sI"
+  | .V .gen _ => "V" | .V .dc _ => "Vdc" | .V .step _ => "Vstep" | .V .sdom _ => "sV" | .V .ac _ => "Vac"
+  | .I .gen _ => "I" | .I .dc _ => "Idc" | .I .step _ => "Istep" | .I .sdom _ => "sI" | .I .ac _ => "Iac"
   | .CPE _ _ => "CPE" | .Xtal _ _ _ _ => "Xtal" | .FB _ _ _ _ => "FB"
 
 /-- `isinstance(arg, V) and arg.Voc == 0` (class `V` only) -/
